@@ -18,35 +18,13 @@ sys.path.insert(0, str(Path(__file__).resolve().parent.parent))
 from mc import common
 
 R = common.bootstrap()
-from mc import dsched, explore  # noqa: E402
+from mc import dsched, explore, world as W  # noqa: E402
 import replicat.utils as U  # noqa: E402
 
 PID = 'C20'
 
 
-class VTime:
-    """Stand-in for the `time` module inside replicat.utils."""
-
-    def __init__(self):
-        self.oversleep = 1.0
-
-    def perf_counter(self):
-        s = dsched.cur()
-        return s.vclock if s else 0.0
-
-    def sleep(self, seconds):
-        s = dsched.cur()
-        if s is not None:
-            s.vsleep(seconds * self.oversleep, 'time.sleep')
-
-    def __getattr__(self, name):
-        import time
-        return getattr(time, name)
-
-
-VT = VTime()
-U.time = VT
-U.threading = types.SimpleNamespace(Lock=dsched.CLock)
+VT = W.install_virtual_time()     # clock, sleep and locks of replicat.utils, however they are imported
 
 
 class SlowStream(io.BytesIO):
@@ -344,8 +322,7 @@ def apply_op(f, op):
 def transparency_case(args):
     wrapper_kind, seqs = args
     VT.oversleep = 1.0
-    import threading as _real_threading
-    U.threading = _real_threading   # no scheduler in this part: the limiter gets real locks
+    dsched.uninstall(U)   # no scheduler in this part: the limiter gets real locks
     vs = []
     n = 0
     for seq in seqs:
